@@ -463,7 +463,7 @@ def run_property(pid, tier, seed, jobs=None, time_cap=None):
     samples = []
     step = max(1, len(agg['samples']) // 5)
     for c in agg['samples'][::step][:6]:
-        samples.append(prop.describe(c))
+        samples.append(prop.describe(c)[:400])
     coverage = {
         'states': len(agg['keys']),
         'transitions': agg['transitions'],
